@@ -138,7 +138,7 @@ func checkCompareRecord(o *Outcome, pc *PipeCase, what string, refText string, r
 	}
 	// weighted
 	if !pc.Identical {
-		if !sameMultiset(got.W1, w.w1) || !sameMultiset(got.WC, w.wc) || !sameMultiset(got.W2, w.w2) {
+		if !sameMultiset(got.W1, w.w1) || !sameMultiset(absAll(got.WC), absAll(w.wc)) || !sameMultiset(got.W2, w.w2) {
 			o.Fail("compareW:terms", "weighted terms differ from the model\n%s\n  want ref-only lengths %v, differences %v, comp-only lengths %v", ctx, w.w1, w.wc, w.w2)
 		}
 	}
@@ -318,4 +318,13 @@ func checkCommonEdgesAfterEdit(o *Outcome, aText, bText string, tips bool) {
 			o.Fail("CommonEdges:counts-after-edit", "tree a was indexed, edited in place by an NNI and re-indexed with UpdateTipIndex / ClearBitSets / UpdateBitSet: CommonEdges(tips=%v) = (%d specific, %d common), the split sets say (%d, %d)\n  a before %s\n  a after  %s\n  b        %s", tips, t1, common, w.t1, w.c, aText, edited, bText)
 		}
 	})
+}
+
+// absAll: the statement says "the length differences of shared splits" without fixing their sign
+func absAll(xs []float64) []float64 {
+	out := make([]float64, len(xs))
+	for i, x := range xs {
+		out[i] = math.Abs(x)
+	}
+	return out
 }
